@@ -93,7 +93,7 @@ func RunCheck(w *World, o CheckOpts) int {
 			outs[i] = fo
 			par <- struct{}{}
 			t0 := time.Now()
-			res := w.GenVC(fn, ct, func(e *Engine) { e.CheckNarrow = g.Narrow; e.OwnCheck = g.Own; e.AbstractConc = g.AbstractConc })
+			res := w.GenVC(fn, ct, func(e *Engine) { e.CheckNarrow = g.Narrow; e.OwnCheck = g.Own; e.AbstractConc = g.AbstractConc; e.ShareCheck = g.Share })
 			fo.genS = time.Since(t0).Seconds()
 			<-par
 			fo.vc = res
@@ -354,7 +354,7 @@ func WriteBaseline(w *World, prop, verifDir string) error {
 		if g.NoCt {
 			ct = nil
 		}
-		res := w.GenVC(w.Funcs[k], ct, func(e *Engine) { e.CheckNarrow = g.Narrow; e.OwnCheck = g.Own; e.AbstractConc = g.AbstractConc })
+		res := w.GenVC(w.Funcs[k], ct, func(e *Engine) { e.CheckNarrow = g.Narrow; e.OwnCheck = g.Own; e.AbstractConc = g.AbstractConc; e.ShareCheck = g.Share })
 		if res.Rejected != "" {
 			continue
 		}
